@@ -98,7 +98,7 @@ pub fn serve(scenario: &str, params: &Params, core: usize) {
         let prefix = decode_prefix(it.next().unwrap_or("-"));
         let trace = it.next() == Some("trace");
         let p = params.clone().set("case", case);
-        let prog = (def.build)(&p);
+        let prog = exec::unclaim(&p, (def.build)(&p));
         let focus = exec::claim_of(&Params::default().set("claim", params.get("focus", 0)));
         let r = exec::run_one(prog, &prefix, trace, focus);
         let v = result_to_json(&r);
